@@ -656,6 +656,11 @@ def refine_droplet(
         vmax = np.max(data_mask)
     vrng = vmax - vmin
 
+    if adjust_values and vrng == 0:
+        # without any contrast, the intensities cannot be fitted since the associated
+        # parameter bounds would be degenerate
+        adjust_values = False
+
     if adjust_values:
         # fit intensities in addition to all droplet parameters
 
